@@ -117,7 +117,20 @@ func vsrvC16ValidFrames(rng *rand.Rand) [][]byte {
 	var open []uint32
 	sentBody := 0
 	for i, n := 0, 2+rng.IntN(12); i < n; i++ {
-		switch rng.IntN(10) {
+		switch rng.IntN(11) {
+		case 10: // SETTINGS in mid-session: windows of open streams shrink (below zero as well) and grow
+			var ss []h2ref.Setting
+			for j, m := 0, 1+rng.IntN(2); j < m; j++ {
+				switch rng.IntN(4) {
+				case 0, 1:
+					ss = append(ss, h2ref.Setting{ID: h2ref.SettingInitialWindowSize, Val: uint32(vsrvPick(rng, 0, 1, 100, 1000, 65535, 1<<20, 1<<31-1))})
+				case 2:
+					ss = append(ss, h2ref.Setting{ID: h2ref.SettingMaxFrameSize, Val: uint32(vsrvPick(rng, 16384, 16385, 1<<20, 1<<24-1))})
+				case 3:
+					ss = append(ss, h2ref.Setting{ID: h2ref.SettingHeaderTableSize, Val: uint32(vsrvPick(rng, 0, 100, 4096, 65536))})
+				}
+			}
+			add(h2ref.AppendSettings(nil, ss...))
 		case 0, 1, 2, 3:
 			block, hasBody := vsrvC16Request(rng, id)
 			pad := -1
@@ -431,7 +444,27 @@ func (s *vsrvSession) c16Sample(d *vsrvC16Desc) {
 
 // --- the session ---------------------------------------------------------------------------
 
-func vsrvC16Feed(s *vsrvSession, rng *rand.Rand, d *vsrvC16Desc, input []byte, bulk bool) {
+func vsrvC16Feed(s *vsrvSession, rng *rand.Rand, d *vsrvC16Desc, input []byte, bulk, paced bool) {
+	if paced {
+		// one frame at a time, the server settled after each (handlers have run as far as they
+		// can - into flow control, say - before the next frame arrives)
+		if len(input) >= len(h2ref.ClientPreface) && string(input[:len(h2ref.ClientPreface)]) == h2ref.ClientPreface {
+			s.cliWrite(input[:len(h2ref.ClientPreface)])
+			input = input[len(h2ref.ClientPreface):]
+		}
+		for len(input) > 0 && !s.c16Closed() {
+			n := len(input)
+			if n >= h2ref.HeaderLen {
+				if l := h2ref.HeaderLen + int(h2ref.ParseHeader(input[:h2ref.HeaderLen]).Length); l < n {
+					n = l
+				}
+			}
+			s.cliWrite(input[:n])
+			input = input[n:]
+			s.settle()
+		}
+		return
+	}
 	for len(input) > 0 {
 		s.mu.Lock()
 		gone := s.srvClosed
@@ -788,7 +821,7 @@ func vsrvC16Session(r *verifrt.R, c *verifrt.Case, kind string) {
 		fs := vsrvC16ValidFrames(rng)
 		body := vsrvC16Mutate(rng, fs, &d.Notes)
 		input = append(append([]byte(nil), preface...), body...)
-	case "valid":
+	case "valid", "valid-paced":
 		input = append(append([]byte(nil), preface...), bytes.Join(vsrvC16ValidFrames(rng), nil)...)
 	default: // flood:<kind>
 		fk := kind[len("flood:"):]
@@ -803,6 +836,10 @@ func vsrvC16Session(r *verifrt.R, c *verifrt.Case, kind string) {
 		bulk = true
 		d.Cap = vsrvPick(rng, 0, 4096, 4096, 65536) // mostly a client that does not read
 	}
+	paced := kind == "valid-paced" || (kind == "valid" || kind == "mutated") && rng.IntN(2) == 0
+	if paced {
+		d.Notes = append(d.Notes, "fed one frame at a time, server settled after each")
+	}
 	d.InputLen = len(input)
 	hp := input
 	if len(hp) > 96 {
@@ -815,7 +852,7 @@ func vsrvC16Session(r *verifrt.R, c *verifrt.Case, kind string) {
 	inner, outer := vsrvBubble(r.T, func() {
 		s = vsrvNewSession(vsrvConfig{Groups: vsrvGrpSurvive, MaxConcurrentStreams: d.Adv, S2CCap: d.Cap, ExpectErrors: true, Handler: vsrvC16Handler})
 		s.start()
-		vsrvC16Feed(s, rng, d, input, bulk)
+		vsrvC16Feed(s, rng, d, input, bulk, paced)
 		vsrvC16Probe(s, rng, d)
 		s.finish()
 	})
@@ -882,6 +919,12 @@ func TestVerif_C16(t *testing.T) {
 	r.CasesParallel("boundary", r.N(600, 12000), 0, func(c *verifrt.Case) {
 		vsrvC16Session(r, c, "boundary-frames")
 	})
+	// protocol-valid sessions with SETTINGS in mid-session, one frame at a time: every handler has
+	// run as far as flow control lets it before the next frame changes the windows
+	r.CasesParallel("valid-paced", r.N(300, 6000), 0, func(c *verifrt.Case) {
+		vsrvC16Session(r, c, "valid-paced")
+	})
+	r.Require("kind_valid-paced", 150)
 	r.Require("kind_boundary-frames", 300)
 	r.Require("serve_loop_samples", 200)
 	r.Require("probe_ping_answered", 40)
